@@ -98,6 +98,24 @@ def binary_build_ok(packet, unit, pdu):
     return False
 
 
+def binary_build_conventions(packet, unit, pdu):
+    """which of the conventions accepted by binary_build_ok this packet follows:
+    set of (body convention, crc convention); empty = not a well-formed binary frame for (unit, pdu)"""
+    out = set()
+    if len(packet) < 6 or packet[:1] != b'{' or packet[-1:] != b'}':
+        return out
+    inner = packet[1:-1]
+    body, crc = inner[:-2], inner[-2:]
+    raw = bytes([unit]) + pdu
+    for name, cand in (('raw', raw), ('data-escaped', bytes([unit, pdu[0]]) + escape_binary(pdu[1:])), ('all-escaped', escape_binary(raw))):
+        if body == cand:
+            if crc == crc_bytes(cand):
+                out.add((name, 'crc-over-body-as-sent'))
+            if crc == crc_bytes(raw):
+                out.add((name, 'crc-over-raw'))
+    return out
+
+
 class Frame(object):
     __slots__ = ('start', 'end', 'unit', 'tid', 'pid', 'pdu', 'msg')
 
